@@ -105,7 +105,7 @@ pub struct SizesInfo {
 impl SizesInfo {
     /// Get the uncompressed block size of block `block_num`
     fn uncompressed_block_size_at(&self, block_num: usize) -> u32 {
-        if block_num < self.compressed_sizes.len() - 1 {
+        if block_num + 1 < self.compressed_sizes.len() {
             UNCOMPRESSED_DATA_SIZE
         } else {
             self.last_block_size
@@ -117,11 +117,17 @@ impl SizesInfo {
         let block_num = uncompressed_pos / u64::from(UNCOMPRESSED_DATA_SIZE);
         let index = usize::try_from(block_num)
             .map_err(|_| io::Error::new(io::ErrorKind::InvalidData, "Integer conversion failed"))?;
-        Ok(self.compressed_sizes[index])
+        self.compressed_sizes.get(index).copied().ok_or_else(|| {
+            io::Error::new(io::ErrorKind::InvalidData, "No such compressed block").into()
+        })
     }
 
     /// Maximum uncompressed available position
     fn max_uncompressed_pos(&self) -> u64 {
+        if self.compressed_sizes.is_empty() {
+            // No block, no data
+            return 0;
+        }
         (self.compressed_sizes.len() as u64 - 1) * u64::from(UNCOMPRESSED_DATA_SIZE)
             + u64::from(self.last_block_size)
     }
@@ -457,7 +463,9 @@ impl<R: Read + Seek> Seek for CompressionLayerReader<'_, R> {
                         if pos == 0 {
                             Ok(self.underlayer_pos)
                         } else if let Ok(pos_i64) = i64::try_from(self.underlayer_pos) {
-                            let new_pos = pos + pos_i64;
+                            let new_pos = pos.checked_add(pos_i64).ok_or_else(|| {
+                                io::Error::new(io::ErrorKind::InvalidInput, "Seek overflow")
+                            })?;
                             if new_pos >= 0 {
                                 self.seek(SeekFrom::Start(u64::try_from(new_pos).map_err(
                                     |_| {
@@ -491,23 +499,16 @@ impl<R: Read + Seek> Seek for CompressionLayerReader<'_, R> {
                         }
 
                         let end_pos = self.sizes_info.as_ref().unwrap().max_uncompressed_pos();
-                        let distance_from_end = -pos;
-                        if distance_from_end >= 0 {
-                            self.seek(SeekFrom::Start(
-                                end_pos
-                                    - u64::try_from(distance_from_end).map_err(|_| {
-                                        io::Error::new(
-                                            io::ErrorKind::InvalidInput,
-                                            "Invalid distance_from_end value",
-                                        )
-                                    })?,
-                            ))
-                        } else {
-                            Err(io::Error::new(
-                                io::ErrorKind::InvalidInput,
-                                "Negative seek offset",
-                            ))
-                        }
+                        // `pos` is negative or null
+                        let distance_from_end = pos.unsigned_abs();
+                        self.seek(SeekFrom::Start(
+                            end_pos.checked_sub(distance_from_end).ok_or_else(|| {
+                                io::Error::new(
+                                    io::ErrorKind::InvalidInput,
+                                    "Seek before the start of the stream",
+                                )
+                            })?,
+                        ))
                     }
                 }
             }
